@@ -501,10 +501,11 @@ def main():
     except (ExtractError, Undecided, extract.RsxError) as e:
         # the unit could not be verified at all (e.g. a contract no longer type-checks against a retyped data structure).  The
         # code is still executable: the property's paired bounded oracles may find an input that fails on the real crate.
-        if not os.environ.get('VERIF_NO_REPLAY_SEARCH') and pcfg.get('replay_harnesses_thorough'):
+        cand = ([] if os.environ.get('VERIF_NO_NATIVE_ORACLES') else list(pcfg.get('native_quick', []))) + ([] if os.environ.get('VERIF_NO_REPLAY_SEARCH') else [h for h in pcfg.get('replay_harnesses_thorough', []) if h not in pcfg.get('native_quick', [])])
+        if cand:
             import replay_search
             allh = dict(replay_search.HARNESS); allh.update(replay_search.struct_harnesses())
-            hs = [h for h in pcfg['replay_harnesses_thorough'] if h != 'c02_*'] + (sorted(h for h in allh if h.startswith('c02_')) if 'c02_*' in pcfg['replay_harnesses_thorough'] else [])
+            hs = [h for h in cand if h != 'c02_*'] + (sorted(h for h in allh if h.startswith('c02_')) if 'c02_*' in cand else [])
             t_end = time.time() + 3 * int(os.environ.get('VERIF_REPLAY_TIMEOUT', '400'))
             for h in hs:
                 if time.time() > t_end: break
